@@ -279,7 +279,17 @@ func (s *Session) MemRows() ([]MemRow, int, bool) {
 	return out, c, true
 }
 
+// EmuIP returns the instruction pointer of the current mode if it is an emulate mode.
+func (s *Session) EmuIP() (uint64, bool) {
+	m, _ := s.UI.VerifMode()
+	if m == nil {
+		return 0, false
+	}
+	return emulate.VerifIP(m)
+}
+
 type RenderResult struct {
+	Shown    []int // line indices printed (first number of every printed line), in order
 	Min, Max int
 	Lines    int
 	Panic    string
@@ -304,6 +314,16 @@ func renderView(v view.View, n int) RenderResult {
 	})
 	r.Err = err != nil
 	r.Lines = countLines(r.Output)
+	r.Shown = []int{}
+	for _, l := range strings.Split(r.Output, "\n") {
+		f := strings.Fields(strings.TrimPrefix(strings.TrimSpace(l), ">"))
+		var idx int
+		if len(f) > 1 && f[1] == "|" {
+			if _, err := fmt.Sscanf(f[0], "%d", &idx); err == nil {
+				r.Shown = append(r.Shown, idx)
+			}
+		}
+	}
 	return r
 }
 
